@@ -1,0 +1,15 @@
+//go:build verif
+
+// Contracts for govc (contract-based deductive verification, see /verif/DESIGN.md).
+// Comment-only file: it adds no code and is compiled only with -tags verif.
+
+package reader
+
+// When the reader assembles its own router and a login and password are configured,
+// the credential check is the first (outermost) middleware of that router, and it
+// compares with exactly the configured login and password.
+//@ func applyMiddlewares [C20]
+//@   requires !isnil(acc) && acc.g_mw == 0 && !acc.g_auth
+//@   modifies acc.g_mw, acc.g_auth
+//@   at BasicAuthMiddleware with-the-configured-credentials: arg0 == config.Cloki.Setting.AUTH_SETTINGS.BASIC.Username && arg1 == config.Cloki.Setting.AUTH_SETTINGS.BASIC.Password
+//@   check auth-first: ownHttpServer && config.Cloki.Setting.AUTH_SETTINGS.BASIC.Username != "" && config.Cloki.Setting.AUTH_SETTINGS.BASIC.Password != "" ==> acc.g_auth
